@@ -1,5 +1,3 @@
-use core::str;
-
 use anyhow::bail;
 use octo_squirrel::config::ServerConfig;
 use octo_squirrel::protocol::socks5::Socks5CommandType;
@@ -64,8 +62,7 @@ impl Decoder for ServerCodec {
                     bail!("not trojan protocol");
                 }
                 let key = src.split_to(56);
-                let key = hex::decode(unsafe { str::from_utf8_unchecked(&key) })?;
-                if self.key != key[..self.key.len()] {
+                if hex::encode(&self.key).as_bytes() != &key[..] {
                     bail!("not a valid password")
                 }
                 src.advance(trojan::CR_LF.len());
